@@ -1222,6 +1222,12 @@ func (e *Env) sliceOp(fr *Frame, x *ssa.Slice, st *State) Value {
 			r := e.alloc(st)
 			e.trust("bytes of [N]byte values (hashes): a slice of the whole value holds abytes(value); writes through such a slice are not reflected in the value")
 			sl := &Slice{Arr: r, Off: lo, Len: simplifySub(hi, lo), Cap: simplifySub(n, lo), Typ: x.Type()}
+			// (every view remembers the variable and the offset it was cut at: binary.PutUintNN
+			// and hash.Sum write through such views, see bytesmodel.go)
+			if e.arrayViewAt == nil {
+				e.arrayViewAt = map[string]viewOrigin{}
+			}
+			e.arrayViewAt[r] = viewOrigin{ptr: b, lo: lo, n: int(at.Len())}
 			if lo == "0" && hi == n {
 				if e.arrayViews == nil {
 					e.arrayViews = map[string]*Ptr{}
@@ -1595,28 +1601,55 @@ func fieldNameOf(v ssa.Value) string {
 // ghostAt runs the ghost emissions the contract of the function under verification attaches
 // to this kind of instruction. Only in the function's own frame (not in inlined callees).
 func (e *Env) ghostAt(fr *Frame, kind, arg string, ops []Value, st *State) {
-	if fr.item == nil || fr.parent != nil || len(fr.item.GhostAt) == 0 || e.quantDepth > 0 {
+	// the frame of the function under verification, or of a function literal nested in it
+	// (closures passed to iterators); not in inlined callees
+	top := fr
+	for top.parent != nil {
+		top = top.parent
+	}
+	if top.item == nil || len(top.item.GhostAt) == 0 || e.quantDepth > 0 {
 		return
 	}
-	for _, g := range fr.item.GhostAt {
-		if g.Kind != kind || (g.Arg != "" && g.Arg != arg) {
+	if fr != top {
+		f := fr.fn
+		for f.Parent() != nil {
+			f = f.Parent()
+		}
+		if f != top.fn || fr.pure {
+			return
+		}
+	}
+	alts := strings.Split(arg, "|")
+	for _, g := range top.item.GhostAt {
+		if g.Kind != kind {
 			continue
 		}
-		vars := e.invVars(fr)
+		if g.Arg != "" {
+			hit := false
+			for _, a := range alts {
+				if a == g.Arg {
+					hit = true
+				}
+			}
+			if !hit {
+				continue
+			}
+		}
+		vars := e.invVars(top)
 		for i, o := range ops {
 			vars[fmt.Sprintf("op%d", i)] = o
 		}
-		ctx := &SpecCtx{e: e, st: st, old: fr.entrySt, vars: vars, pkg: e.w.typesPkg(fr.item.Pkg)}
+		ctx := &SpecCtx{e: e, st: st, old: top.entrySt, vars: vars, pkg: e.w.typesPkg(top.item.Pkg)}
 		if g.Assume != nil && g.Assert {
 			t := ctx.boolTerm(g.Assume)
 			e.ghostAsserts++
-			e.oblige("assert", fmt.Sprintf("%s-%s#%d", kind, arg, e.ghostAsserts), st.pc, t)
+			e.oblige("assert", fmt.Sprintf("%s-%s#%d", kind, alts[0], e.ghostAsserts), st.pc, t)
 			e.assume(mkImp(st.pc, t))
 			continue
 		}
 		if g.Assume != nil {
 			e.assume(mkImp(st.pc, ctx.boolTerm(g.Assume)))
-			e.trust("assumed in " + fr.fn.Name() + " at " + kind + " " + arg + ": " + g.AssumeText)
+			e.trust("assumed in " + top.fn.Name() + " at " + kind + " " + alts[0] + ": " + g.AssumeText)
 			continue
 		}
 		e.emitFor(&Item{Emits: []*Emit{g.Emit}}, ctx, st)
